@@ -71,6 +71,7 @@ type verifLayer struct {
 	files      map[string][]byte // expected content by cleaned path (conforming layers only)
 	newDecomp  func() metadata.Decompressor
 	candidates []string // sigs this layer is expected to trip (candidate stream)
+	variant    string   // generator variant (non-conforming kinds name the accept/reject signature)
 }
 
 func verifHex(s string) string {
@@ -672,13 +673,29 @@ func (g *verifGen) addHardlink() {
 
 // verifGenConforming produces a TOC inside the SpecConforming fragment (see SV/Props/C05.lean).
 func verifGenConforming(rnd *verifutil.Rand, label, compr string) *verifLayer {
-	g := verifNewGen(rnd)
-	if rnd.Intn(5) == 0 {
-		// explicit root directory entry, as `tar -C dir .` emits
-		e := verifEnt{Name: []string{"./", "/", ".", "", "../"}[rnd.Intn(5)], Type: "dir", Mode: 0755}
-		g.ents = append(g.ents, e)
-		g.feat["root-entry"] = true
+	return verifGenVariant(rnd, label, compr, "")
+}
+
+var verifCandKinds = []string{"root-entry-nlink", "toc-digest-span-zstd", "repeated-dir-attr-merge",
+	"dir-after-child-nlink", "chunk-digest-fallback", "dup-name", "getoffset-no-data"}
+
+var verifNonconfKinds = []string{"hardlink-missing", "hardlink-to-dir", "hardlink-forward", "chunk-first",
+	"file-under-file", "unknown-type", "chunks-unsorted", "two-bad-hardlinks"}
+
+func (g *verifGen) insertFront(e verifEnt) {
+	g.ents = append([]verifEnt{e}, g.ents...)
+	for i := range g.streams {
+		for k := range g.streams[i].idx {
+			g.streams[i].idx[k]++
+		}
 	}
+}
+
+// verifGenVariant: kind "" = spec-conforming; a candidate kind = conforming-looking input of a class
+// on which the current stores disagree; a non-conforming kind = outside the spec.
+func verifGenVariant(rnd *verifutil.Rand, label, compr, kind string) *verifLayer {
+	g := verifNewGen(rnd)
+	class := "conf"
 	n := 1 + rnd.Intn(14)
 	for i := 0; i < n; i++ {
 		switch rnd.Pick(3, 2, 5, 2, 3) {
@@ -694,13 +711,171 @@ func verifGenConforming(rnd *verifutil.Rand, label, compr string) *verifLayer {
 			g.addHardlink()
 		}
 	}
+	if len(g.ents) == 0 {
+		g.addFile() // an empty TOC is its own candidate class (root NumLink)
+	}
 	g.flushStream()
 	st := verifJSONStyle{explicitZeros: rnd.Intn(4) == 0, compact: rnd.Intn(3) == 0, version: rnd.Intn(4) != 0}
 	if compr != "zstd" {
 		st.trailing = []string{"", "", "\n", " \n\t ", "   "}[rnd.Intn(5)]
 	}
-	l := verifAssemble(label, "conf", compr, g.ents, g.streams, st, rnd)
-	l.files = g.files
+	var cands []string
+	isIn := func(k string, l []string) bool {
+		for _, x := range l {
+			if x == k {
+				return true
+			}
+		}
+		return false
+	}
+	if isIn(kind, verifCandKinds) {
+		class = "cand"
+		cands = []string{kind}
+	} else if kind != "" {
+		class = "nonconf"
+	}
+	firstOf := func(pred func(e *verifEnt) bool) int {
+		var idx []int
+		for i := range g.ents {
+			if pred(&g.ents[i]) {
+				idx = append(idx, i)
+			}
+		}
+		if len(idx) == 0 {
+			return -1
+		}
+		return idx[rnd.Intn(len(idx))]
+	}
+	someFile := func() string { // cleaned name of an existing non-dir entry, "" if none
+		i := firstOf(func(e *verifEnt) bool { return e.Type != "dir" && e.Type != "chunk" })
+		if i < 0 {
+			return ""
+		}
+		return verifClean(g.ents[i].Name)
+	}
+	switch kind {
+	case "":
+	case "root-entry-nlink":
+		// explicit root directory entry, as `tar -C dir .` emits
+		g.insertFront(verifEnt{Name: []string{"./", "/", ".", "", "../"}[rnd.Intn(5)], Type: "dir", Mode: 0755})
+	case "toc-digest-span-zstd":
+		compr = "zstd"
+		st.trailing = strings.Repeat(" ", 5000+rnd.Intn(5000)) + "\n"
+	case "repeated-dir-attr-merge":
+		i := firstOf(func(e *verifEnt) bool { return e.Type == "dir" })
+		if i < 0 {
+			g.ents = append(g.ents, verifEnt{Name: "rd/", Type: "dir", Mode: 0700, UID: 7, Xattrs: []verifKV{{"user.a", []byte("1")}}})
+			i = len(g.ents) - 1
+		}
+		e2 := verifEnt{Name: g.ents[i].Name, Type: "dir", Mode: g.ents[i].Mode ^ 0111}
+		if g.ents[i].UID == 0 && g.ents[i].ModTime == "" && len(g.ents[i].Xattrs) == 0 {
+			e2.UID = 1 // the later header has an attribute the earlier lacks: both stores show it
+			g.ents[i].GID = 9
+		}
+		g.ents = append(g.ents, e2)
+	case "dir-after-child-nlink":
+		var imp []string
+		for d, k := range g.used {
+			if k == "implicit" && d != "" {
+				imp = append(imp, d)
+			}
+		}
+		sort.Strings(imp)
+		if len(imp) == 0 {
+			g.ents = append(g.ents, vFile("late/dir/f", "x", nil)...)
+			g.streams = append(g.streams, verifStream{idx: []int{len(g.ents) - 1}, gap: []int{0}})
+			imp = []string{"late/dir"}
+		}
+		d := imp[rnd.Intn(len(imp))]
+		g.ents = append(g.ents, verifEnt{Name: d + "/", Type: "dir", Mode: 0711})
+	case "chunk-digest-fallback":
+		i := firstOf(func(e *verifEnt) bool { return e.Type == "reg" && e.Size > 0 })
+		if i < 0 {
+			g.ents = append(g.ents, vFile("legacy", "legacy-content", nil)...)
+			g.streams = append(g.streams, verifStream{idx: []int{len(g.ents) - 1}, gap: []int{0}})
+			i = len(g.ents) - 1
+		}
+		if g.ents[i].Digest == "" {
+			g.ents[i].Digest = verifSha([]byte("whatever"))
+		}
+		g.ents[i].ChunkDigest = ""
+	case "dup-name":
+		nm := someFile()
+		if nm == "" {
+			nm = "dupf"
+			g.ents = append(g.ents, verifEnt{Name: nm, Type: "symlink", LinkName: "x"})
+		}
+		switch rnd.Intn(3) {
+		case 0:
+			g.ents = append(g.ents, verifEnt{Name: nm, Type: "symlink", LinkName: "elsewhere", UID: 3})
+		case 1:
+			g.ents = append(g.ents, verifEnt{Name: nm + "/", Type: "dir", Mode: 0700})
+		default:
+			g.ents = append(g.ents, vFile(nm, "second-version", nil, vOwner(2, 2))...)
+			g.streams = append(g.streams, verifStream{idx: []int{len(g.ents) - 1}, gap: []int{0}})
+		}
+	case "getoffset-no-data":
+		g.ents = append(g.ents, verifEnt{Name: "off-on-dir/", Type: "dir", Offset: 88}, verifEnt{Name: "off-on-empty", Type: "reg", Offset: 77})
+	case "hardlink-missing":
+		g.ents = append(g.ents, verifEnt{Name: "hl-missing", Type: "hardlink", LinkName: "does/not/exist"})
+	case "two-bad-hardlinks":
+		g.ents = append(g.ents, verifEnt{Name: "hl-missing", Type: "hardlink", LinkName: "does/not/exist"})
+		g.addFile()
+		g.flushStream()
+		g.ents = append(g.ents, verifEnt{Name: "hl-missing2", Type: "hardlink", LinkName: "nor/this"})
+	case "hardlink-to-dir":
+		var ds []string
+		for d := range g.used {
+			if g.used[d] != "file" {
+				ds = append(ds, d)
+			}
+		}
+		sort.Strings(ds)
+		g.ents = append(g.ents, verifEnt{Name: "hl-to-dir", Type: "hardlink", LinkName: "/" + ds[rnd.Intn(len(ds))]})
+	case "hardlink-forward":
+		nm := someFile()
+		if nm == "" {
+			nm = "nothing"
+		}
+		g.insertFront(verifEnt{Name: "hl-forward", Type: "hardlink", LinkName: nm})
+	case "chunk-first":
+		g.insertFront(verifEnt{Name: "x", Type: "chunk", ChunkOffset: 1, ChunkSize: 1})
+	case "file-under-file":
+		i := firstOf(func(e *verifEnt) bool { return e.Type == "reg" || e.Type == "symlink" })
+		if i < 0 {
+			g.ents = append(g.ents, verifEnt{Name: "plain", Type: "symlink", LinkName: "x"})
+			i = len(g.ents) - 1
+		}
+		g.ents = append(g.ents, verifEnt{Name: verifClean(g.ents[i].Name) + "/below", Type: "symlink", LinkName: "y"})
+	case "unknown-type":
+		g.ents = append(g.ents, verifEnt{Name: "sock", Type: "socket", Mode: 0644}, verifEnt{Name: "notype", Type: ""})
+	case "chunks-unsorted":
+		done := false
+		for i := 0; i+2 < len(g.ents); i++ {
+			if g.ents[i].Type == "reg" && g.ents[i+1].Type == "chunk" && g.ents[i+2].Type == "chunk" {
+				g.ents[i+1].ChunkOffset, g.ents[i+2].ChunkOffset = g.ents[i+2].ChunkOffset, g.ents[i+1].ChunkOffset
+				done = true
+				break
+			}
+		}
+		if !done {
+			ents := vFile("unsorted", "0123456789", []int{3, 6})
+			ents[1].ChunkOffset, ents[2].ChunkOffset = ents[2].ChunkOffset, ents[1].ChunkOffset
+			base := len(g.ents)
+			g.ents = append(g.ents, ents...)
+			for k := range ents {
+				g.streams = append(g.streams, verifStream{idx: []int{base + k}, gap: []int{0}})
+			}
+		}
+	default:
+		panic("verif: unknown variant " + kind)
+	}
+	l := verifAssemble(label, class, compr, g.ents, g.streams, st, rnd)
+	l.candidates = cands
+	l.variant = kind
+	if class == "conf" {
+		l.files = g.files
+	}
 	var fs []string
 	for k := range g.feat {
 		fs = append(fs, k)
@@ -710,6 +885,9 @@ func verifGenConforming(rnd *verifutil.Rand, label, compr string) *verifLayer {
 		fs = append(fs, "toc-trailing-ws")
 	}
 	l.label += " feat=" + strings.Join(fs, "+")
+	if kind != "" {
+		l.label += " variant=" + kind
+	}
 	return l
 }
 
@@ -1226,7 +1404,9 @@ func verifAssembleKeep(label, class, compr string, ents []verifEnt, st verifJSON
 // verifNonConformingScenarios: TOCs outside the spec; only accept/reject agreement is required.
 func verifNonConformingScenarios() []*verifLayer {
 	mk := func(label string, ents []verifEnt) *verifLayer {
-		return verifScenario("nonconf-"+label, "nonconf", "gzip", ents, nil, verifStd)
+		l := verifScenario("nonconf-"+label, "nonconf", "gzip", ents, nil, verifStd)
+		l.variant = label
+		return l
 	}
 	var ls []*verifLayer
 	ls = append(ls, mk("hardlink-forward", vCat(vOne(vE("l", "hardlink", vLink("f"))), vFile("f", "x", nil))))
